@@ -306,7 +306,12 @@ Definition step_task (c : cfg) (s : state) (t : nat) : option state :=
   | TPermit o r =>
       let s1 := ssem_add s in
       Some (setpc (emit (set_loose s1 (o :: loose s1)) (ERemoved o t)) t (PDone r))
-  | DStart o => Some (setpc (set_vec s (o :: vec s)) t DAvail)
+  | DStart o =>
+      (* Object::drop, one lock region: a closed pool takes nothing back - the object is destroyed by the
+         returning thread; an open pool queues it *)
+      if closed s then
+        Some (setpc (emit_destroyed t [o] (set_dead (set_size s (size s - 1)) (o :: dead s))) t (PDone RUnit))
+      else Some (setpc (set_vec s (o :: vec s)) t DAvail)
   | DAvail => Some (setpc (set_avail s (avail s + 1)) t DPermit)
   | DPermit => Some (setpc (sem_add s) t DCheck)
   | DCheck => if closed s then Some (setpc s t DClear) else Some (setpc s t (PDone RUnit))
